@@ -8,7 +8,7 @@ BUDGET = {"quick": 1500, "thorough": 30000}
 LEVEL_TEXT = ("Lean theorems: C09_keys_full_holds (a key is accepted iff some line of the file carries it, for every file), "
               "C09_password_decision (password logins granted exactly in the three documented cases), C09_health_only; tied to "
               "the code by running the real verifyAuthorizedKeys on generated key files (per-line oracle from ssh.ParseAuthorizedKey), "
-              "the real password Callback with generated job configurations, and a real server-side health session")
+              "the real password Callback with generated job configurations, and a real server-side health session; c09.pwseq: several password logins in a row against one server value and one job configuration (nothing a server keeps between handshakes may change a decision)")
 TRUSTED = ["Lean 4 kernel", "axioms: propext, Quot.sound, Classical.choice (at most)", "fact extractor (service user names)",
            "overlay harness + dtmodel driver + this diff",
            "modelled not verified: golang.org/x/crypto/ssh (signature verification of the offered key, ParseAuthorizedKey's skip-to-first-key "
